@@ -68,7 +68,8 @@ Theorem C01_composed_sampler_feasible d c n o rows : wf_domain d = true ->
 Proof. exact (oh_sample_ok d c n o rows). Qed.
 Print Assumptions C01_composed_sampler_feasible.
 
-(* ---- the optimiser stage of the GP endpoint: for every acquisition function (of the lies appended so far), every
+(* ---- the optimiser stage of the GP endpoint: for every PARTIAL acquisition function (row -> option Q, None = NaN, as in C07's
+   model; of the lies appended so far; a batch without any defined value ends the stage in SErr (SOpt ValueError)), every
    incumbent, every optimiser parameter set, every pretest set and every stream of draws, every point the stage returns
    lies in the relaxed box and satisfies every constraint; the count is the requested one.
    One call of vectorized_acquisition_optimization first ... *)
@@ -91,27 +92,29 @@ Theorem C01_composed_random_endpoint d opts ps n pcols c so cols dec draws r : w
 Proof. exact (random_endpoint_admissible d opts ps n pcols c so cols dec draws r). Qed.
 Print Assumptions C01_composed_random_endpoint.
 
-(* GP endpoint without task options, both parallelism modes (and the search endpoint's own optimisation as a third mode) *)
-Theorem C01_composed_gp_endpoint d c afl best n m hist dec f r :
+(* GP endpoint without task options, both parallelism modes (and the search endpoint's own optimisation as a third mode).
+   afl: the partial acquisition function the optimisers see; aft: the function as the discrete neighbour search of the tail
+   sees it - Model/EndpointTail.v models that search for total functions only, so it is a separate arbitrary argument *)
+Theorem C01_composed_gp_endpoint d c afl aft best n m hist dec f r :
   wf_domain d = true -> cons_two d -> (is_constrained d = true -> RP.interior (oh_dom d) c) -> mode_ok m ->
   (n <= length (o_cats dec))%nat ->
-  (forall xs pts, gp_stage d [] c afl best n m = SOk xs -> convert_from_one_hot d (is_qei m) (afl []) dec xs = Some pts ->
+  (forall xs pts, gp_stage d [] c afl best n m = SOk xs -> convert_from_one_hot d (is_qei m) aft dec xs = Some pts ->
      fill_prim d c (fill_k d pts hist) hist f) ->
-  gp_endpoint d c afl best n m hist dec f = Some r -> resp_ok d [] n r.
-Proof. exact (gp_endpoint_admissible d c afl best n m hist dec f r). Qed.
+  gp_endpoint d c afl aft best n m hist dec f = Some r -> resp_ok d [] n r.
+Proof. exact (gp_endpoint_admissible d c afl aft best n m hist dec f r). Qed.
 Print Assumptions C01_composed_gp_endpoint.
 
 (* GP endpoint with task options: search domain with the task column, fixed at the task t drawn a priori *)
-Theorem C01_composed_gp_endpoint_multitask d opts t ct afl best n P pretest os hist_oh dec hdec f r :
+Theorem C01_composed_gp_endpoint_multitask d opts t ct afl aft best n P pretest os hist_oh dec hdec f r :
   wf_domain d = true -> opts <> [] -> list_min opts < list_max opts -> In t opts -> cons_two d ->
   (is_constrained d = true -> RP.interior (oh_dom (with_task d opts)) ct) -> Forall vorc_ok os ->
   (n <= length (o_cats dec))%nat ->
   (forall xs pts aug, cl_stage (with_task d opts) (task_fixed d t) ct afl best P pretest n os = SOk xs ->
-     convert_from_one_hot (with_task d opts) false (afl []) dec xs = Some pts ->
+     convert_from_one_hot (with_task d opts) false aft dec xs = Some pts ->
      decode_b (with_task d opts) hdec hist_oh = Some aug ->
      fill_prim (with_task d opts) ct (fill_k (with_task d opts) pts aug) aug f) ->
-  gp_endpoint_mt d opts t ct afl best n P pretest os hist_oh dec hdec f = Some r -> resp_ok d opts n r.
-Proof. exact (gp_endpoint_mt_admissible d opts t ct afl best n P pretest os hist_oh dec hdec f r). Qed.
+  gp_endpoint_mt d opts t ct afl aft best n P pretest os hist_oh dec hdec f = Some r -> resp_ok d opts n r.
+Proof. exact (gp_endpoint_mt_admissible d opts t ct afl aft best n P pretest os hist_oh dec hdec f r). Qed.
 Print Assumptions C01_composed_gp_endpoint_multitask.
 
 (* Parzen-estimator endpoint: proposals around the lower points (near point / uniform fall-back), accept / reject, padding *)
@@ -133,13 +136,13 @@ Proof. exact (spe_max_location_feasible d c scipy_out us). Qed.
 Print Assumptions C01_composed_spe_max_location.
 
 (* search endpoints (requests without task options) *)
-Theorem C01_composed_search_endpoint d c ph u afl best n m afl_pi Pde maxiter pretest sos hist dec f r :
+Theorem C01_composed_search_endpoint d c ph u afl aft best n m afl_pi aft_pi Pde maxiter pretest sos hist dec f r :
   wf_domain d = true -> cons_two d -> (is_constrained d = true -> RP.interior (oh_dom d) c) ->
   mode_ok m -> Forall (fun o => unit_stream (so_us o)) sos -> (n <= length (o_cats dec))%nat ->
-  (forall afl' m' xs pts, gp_stage d [] c afl' best n m' = SOk xs -> convert_from_one_hot d (is_qei m') (afl' []) dec xs = Some pts ->
+  (forall afl' aft' m' xs pts, gp_stage d [] c afl' best n m' = SOk xs -> convert_from_one_hot d (is_qei m') aft' dec xs = Some pts ->
      fill_prim d c (fill_k d pts hist) hist f) ->
-  search_endpoint d c ph u afl best n m afl_pi Pde maxiter pretest sos hist dec f = Some r -> resp_ok d [] n r.
-Proof. exact (search_endpoint_admissible d c ph u afl best n m afl_pi Pde maxiter pretest sos hist dec f r). Qed.
+  search_endpoint d c ph u afl aft best n m afl_pi aft_pi Pde maxiter pretest sos hist dec f = Some r -> resp_ok d [] n r.
+Proof. exact (search_endpoint_admissible d c ph u afl aft best n m afl_pi aft_pi Pde maxiter pretest sos hist dec f r). Qed.
 Print Assumptions C01_composed_search_endpoint.
 Theorem C01_composed_spe_search_endpoint d ps ph path n c g r : wf_domain d = true -> (0 <= n)%Z -> cons_two d ->
   (is_constrained d = true -> RP.interior (oh_dom d) c) ->
@@ -159,11 +162,13 @@ Example C01_composed_random_example :
 Proof. exact random_endpoint_example. Qed.
 (* GP endpoint: two constant-liar rounds (one DE generation of three members, near-best + random ES starts, one Adam step);
    the first suggestion is pulled onto the face x + y = 3 by the constrained restriction, duplicates the history after the
-   decode and is replaced by a fresh point of the rejection sampler. *)
+   decode and is replaced by a fresh point of the rejection sampler.  The acquisition function cx_af is undefined (NaN) for
+   y > 3/2; with a function that has no value anywhere the stage ends in the ValueError of numpy.nanargmax. *)
 Example C01_composed_gp_example :
   wf_domain cx_dom = true /\ cons_two cx_dom /\ RP.interior (oh_dom cx_dom) cx_c /\ mode_ok cx_mode /\
   gp_stage cx_dom [] cx_c cx_af (fun _ => [1; 1; 1; 0]) 2 cx_mode = SOk [[7#4; 5#4; 1; 0]; [3#2; 1; 1#4; 3#4]] /\
   fill_prim cx_dom cx_c 1 cx_hist cx_fill /\
-  gp_endpoint cx_dom cx_c cx_af (fun _ => [1; 1; 1; 0]) 2 cx_mode cx_hist cx_dec cx_fill
-  = Some {| r_points := [[3#2; 1; 2]; [2#8; 2#4; 2]]; r_costs := None |}.
+  gp_endpoint cx_dom cx_c cx_af cx_aft (fun _ => [1; 1; 1; 0]) 2 cx_mode cx_hist cx_dec cx_fill
+  = Some {| r_points := [[3#2; 1; 2]; [2#8; 2#4; 2]]; r_costs := None |} /\
+  gp_stage cx_dom [] cx_c (fun _ _ => None) (fun _ => [1; 1; 1; 0]) 2 cx_mode = SErr (SOpt OP.ValueError).
 Proof. exact gp_endpoint_example. Qed.
